@@ -85,6 +85,72 @@ CLAIMED = {
             "trusted: pyvc, z3, cvc5",
             "contract-based deductive verification: VCs generated from the AST of the real functions and their SQL text, "
             "discharged by z3 / cvc5"),
+    "C15": ("exploration",
+            "Bounded stand-in, labelled bounded and not counted as proved, for dictionary parsing and the structural checks "
+            "of the real FIXSchema.validate / SchemaGroup.validate_group: every message type of tests/FIX44.xml (93) and "
+            "tests/TT-FIX44.xml (40), valid instances generated from an independent reading of the XML must validate, "
+            "every single-fault class at the applicable positions (message level and every group depth) must be rejected "
+            "with FIXMessageError and nothing else, verdicts unchanged under permutation of the <components> declarations. "
+            "Deductive core, proved for all texts (shared with C19): SchemaField.validate_value accepts exactly the "
+            "lexical space of each datatype and raises only the message error. Three genuine defects repaired (fix: "
+            "06df861 missing required group accepted, 2885ea5 missing required nested group accepted, 1916a24 "
+            "AssertionError for a plain group member given as group); known finding C15-KF1 = C19-KF1 (LENGTH fields are "
+            "not validated; pinned by the suite).",
+            "DESIGN.md 4/C15 and 9",
+            "level exploration: validate / validate_group / _parse iterate over dicts of value-hashed schema objects built "
+            "from XML - outside the subset the verifier executes; bounds: 2 (thorough 12) instances per message type, up to "
+            "3 (12) positions per fault class, 1 (4) component permutations; oracle: independent XML reading; the value "
+            "checks are proved under the assumptions of C19",
+            "bounded exploration of the real schema validator over both real dictionaries as stand-in; contract-based "
+            "deductive verification of validate_value (C19)"),
+    "C10": ("exploration",
+            "Bounded stand-in, labelled bounded and not counted as proved, for the real Codec.decode and reader loop "
+            "(their unbounded field list from str.split and the group-context stack are outside what the verifier "
+            "executes): random byte strings, 30 grammar-aware malformed frames, every single-byte substitution / deletion "
+            "/ insertion over a corpus of valid frames, each alone (never raises, 0 <= consumed <= len, repeated "
+            "decoding terminates, a returned message carries a frame confirmed by an independent parser) and followed by "
+            "valid traffic through decode and through the real socket_read_task (the traffic is delivered). Deductive "
+            "core, proved for all inputs: Codec._is_number (true exactly for 1..18 ASCII digits, so int() behind it "
+            "cannot raise) and Codec._skip_len (what a reject consumes: within the buffer, strictly past the rejected "
+            "frame start, never a later frame start, the longest marker prefix at the end is kept). Five genuine "
+            "defects repaired (fix: f152f4c, c8894fd, 87a630c, bd52c6b, fce3e6e); known finding C10-KF1 (a NUL byte "
+            "inserted into a frame is accepted: BodyLength is never compared with the bytes; the pinned suite requires "
+            "that leniency).",
+            "DESIGN.md 4/C10 and 9",
+            "level exploration: nothing is claimed as proved about decode as a whole; bounds: 1500 random buffers "
+            "(thorough 20000), all positions (quick: every 2nd) of 6 corpus frames x 8+1+5 mutations, 110 trailing "
+            "frames, every 9th (3rd) case through the reader task; oracle: independent frame parser; trusted: pyvc, "
+            "z3, cvc5 for the two helper contracts",
+            "bounded exploration of the real decoder (fuzz + exhaustive single-byte corruptions) as stand-in; "
+            "contract-based deductive verification of the helper functions _is_number / _skip_len (z3 + cvc5)"),
+    "C03": ("exploration",
+            "Bounded stand-in, labelled bounded and not counted as proved: the real socket_read_task fed by a scripted "
+            "reader - every 1-cut and 600 (thorough: all) 2-cut partitions of three small streams with four kinds of "
+            "marker-free garbage, random multi-cut partitions and 1-byte reads of 25 (300) random streams of 1-8 frames; "
+            "delivered raw frames == frames sent, in order. Deductive core, proved for all buffers: Codec._skip_len - "
+            "no frame start is ever dropped and the longest proper prefix of the frame-start marker at the end of a "
+            "buffer is kept (a read boundary inside '8=FIX.' loses nothing). Two genuine defects repaired (fix: 87a630c "
+            "marker split across reads, c8894fd partial frame behind garbage).",
+            "DESIGN.md 4/C03 and 9",
+            "level exploration: the read loop and decode are outside the subset the verifier executes; bounds as stated; "
+            "trusted: pyvc, z3, cvc5 for _skip_len",
+            "bounded exploration of the real reader (exhaustive small partitions, random large ones) as stand-in; "
+            "contract-based deductive verification of _skip_len"),
+    "C01": ("exploration",
+            "Bounded stand-in, labelled bounded and not counted as proved: 4000 (thorough 100000) generated well-formed "
+            "messages through the real encode -> decode (all message types and custom ones, random body tags, values with "
+            "'=', '10=', '9=', '8=FIX.', latin-1 letters, the message-level groups of the FIX 4.4 table with optional "
+            "members and nesting, allocate / PossDup / SequenceReset / raw sequence-number modes): same type, body fields "
+            "in order, group structure, whole frame consumed, raw bytes unchanged, CompIDs and MsgSeqNum. Deductive core: "
+            "the framing contract of Codec.encode (any set of body fields; ASCII text) as in C02 - the BodyLength / "
+            "CheckSum consistency the decoder's frame cut relies on. One genuine defect repaired (fix: c8894fd a value "
+            "containing '8=FIX.' cut the frame).",
+            "DESIGN.md 4/C01 and 9",
+            "level exploration: decode is outside the subset the verifier executes; premise of well-formedness (members in "
+            "table order starting with the first, no plain tag that is a group member, nested-only groups not at "
+            "message level) built into the generator; trusted: pyvc, z3",
+            "bounded exploration of the real codec round trip as stand-in; contract-based deductive verification of the "
+            "encoder's framing (shared with C02)"),
     "C18": ("proof",
             "Data structure against an abstract view: a symbolic heap of containers (identity -> key -> presence / kind / "
             "text / member list / position). Every operation of the real FIXContainer - set, [] =, get, [], in, is_group, "
